@@ -52,6 +52,7 @@ var c13Kinds = []string{
 	"transcript", "proof-write", "proof-read", "groupops", "weights", "innerprod", "powers", "precomp-point", "execute",
 	// calls that must fail
 	"transcript-retain", "fail-prove-zero-commitment",
+	"readpoint-mutate", "readscalar-mutate", "prove-mutate-result", "fr-setbigint", "fr-setinterface", "setidentity-mutate",
 	"fail-prove-len", "fail-prove-zero", "fail-prove-polylen", "fail-verify-len", "fail-batchnorm-zero", "fail-read-short", "fail-decode-noncanonical", "fail-msm-len",
 }
 
@@ -118,6 +119,7 @@ type arena struct {
 	IPAProof ipa.IPAProof
 	IPAEval fr.Element
 	IPARes  fr.Element
+	BigInts []*big.Int // caller-owned integers: in range, >= r, negative, r itself, 0
 	// caller-owned opening lists (statements), passed to the prover as they are
 	Stmts []*c13stmt
 	// backing arrays: polynomials and proof points are carved out of shared arrays with spare
@@ -188,6 +190,15 @@ func buildArena(seed uint64) *arena {
 		bad := new(big.Int).Add(refmodel.R, big.NewInt(int64(i)))
 		a.BufBad = append(a.BufBad, le32(bad))
 		a.Labels = append(a.Labels, []byte(genLabel(r)+"L"))
+	}
+	a.BigInts = []*big.Int{
+		r.Scalar(),
+		new(big.Int).Add(refmodel.R, big.NewInt(5)),
+		new(big.Int).Neg(big.NewInt(7)),
+		new(big.Int).Set(refmodel.R),
+		new(big.Int),
+		new(big.Int).Lsh(r.Scalar(), 300),
+		new(big.Int).Neg(new(big.Int).Lsh(r.Scalar(), 70)),
 	}
 	for k := 0; k < nProofs; k++ {
 		// private copies: the arena's commitments keep their (possibly non-normalised) representation
@@ -397,6 +408,78 @@ func doCall(a *arena, c C13Call) (out string, failed bool) {
 	case "commit":
 		e := cfg.Commit(a.Polys[pick(nPolys, c.A)])
 		return digest(e.Bytes()), false
+	case "readpoint-mutate", "readscalar-mutate", "setidentity-mutate":
+		// Objects returned by pointer belong to the caller: use them as the destination of
+		// further operations. Nothing shared (package variables, configuration) may change.
+		var scribble banderwagon.Element
+		scribble.Add(a.Elems[pick(nElems, c.A)], a.Elems[pick(nElems, c.B)])
+		switch c.Kind {
+		case "readpoint-mutate":
+			src := a.Buf32[pick(nElems, c.A)]
+			if c.N%3 == 0 {
+				src = make([]byte, 32) // the encoding of the identity
+			}
+			pt, err := common.ReadPoint(bytes.NewReader(src))
+			if err != nil {
+				return digest("err"), true
+			}
+			before := pt.Bytes()
+			pt.Add(pt, &scribble)
+			pt.Double(pt)
+			return digest(before, pt.Bytes()), false
+		case "readscalar-mutate":
+			sc, err := common.ReadScalar(bytes.NewReader(a.BufS[pick(nBufs, c.A)]))
+			if err != nil {
+				return digest("err"), true
+			}
+			before := *sc
+			sc.Add(sc, &a.Scalars[pick(nScal, c.B)])
+			sc.Double(sc)
+			return digest(before, *sc), false
+		default:
+			var e banderwagon.Element
+			p := e.SetIdentity()
+			before := p.Bytes()
+			p.Add(p, &scribble)
+			g := banderwagon.Generator
+			g.Double(&g)
+			id := banderwagon.Identity
+			id.Add(&id, &scribble)
+			return digest(before, p.Bytes(), g.Bytes(), id.Bytes()), false
+		}
+	case "prove-mutate-result":
+		st := a.Stmts[pick(len(a.Stmts), c.A)]
+		// private copies of the statement lists (this call is about the RESULT object)
+		p, err := multiproof.CreateMultiProof(common.NewTranscript(st.Label), cfg, append([]*banderwagon.Element{}, st.Cs...), append([][]fr.Element{}, st.Fs...), append([]uint8{}, st.Zs...))
+		if err != nil {
+			return digest("err"), true
+		}
+		var b bytes.Buffer
+		p.Write(&b)
+		// scribble over every part of the returned proof
+		p.D.Double(&p.D)
+		for i := range p.IPA.L {
+			p.IPA.L[i].Add(&p.IPA.L[i], &p.D)
+			p.IPA.R[i].SetIdentity()
+		}
+		p.IPA.A_scalar.SetOne()
+		p.IPA.L = append(p.IPA.L, p.D)
+		return digest(b.Bytes()), false
+	case "fr-setbigint", "fr-setinterface":
+		v := a.BigInts[pick(len(a.BigInts), c.A)]
+		var e fr.Element
+		if c.Kind == "fr-setbigint" {
+			e.SetBigInt(v)
+		} else if c.Flag {
+			if _, err := e.SetInterface(v); err != nil {
+				return digest("err"), true
+			}
+		} else {
+			if _, err := e.SetInterface(*v); err != nil {
+				return digest("err"), true
+			}
+		}
+		return digest(e), false
 	case "fail-prove-zero-commitment":
 		// an un-normalisable commitment in the list: the prover must fail, and whatever it did
 		// to the other commitments before failing must preserve their values
@@ -758,7 +841,7 @@ func (c13) Exec(plan interface{}) Result {
 			nr := a.rawValues()
 			if nr != raw {
 				// only the prover and BatchNormalize may change a representation
-				if c.Kind != "prove" && c.Kind != "batchnorm" && c.Kind != "fail-batchnorm-zero" && !(len(c.Kind) >= 10 && c.Kind[:4] == "fail" && c.Kind[5:10] == "prove") {
+				if c.Kind != "prove" && c.Kind != "prove-mutate-result" && c.Kind != "batchnorm" && c.Kind != "fail-batchnorm-zero" && !(len(c.Kind) >= 10 && c.Kind[:4] == "fail" && c.Kind[5:10] == "prove") {
 					return false, fail("representation-changed", "call %d (%s) %s changed the representation of a shared group element although it is not a normalising call", i, c.Kind, after)
 				}
 				raw = nr
